@@ -349,6 +349,54 @@ def check(src, rep):
             if closing_set is None and had_conn:
                 bad4 += 1
                 rep.violation("R4", f"{MOD}.ConnectionManager.connect_loop", "drop-without-test", "the connection reference is dropped without distinguishing loss from close()", file, cl.node.lineno)
+    # the connection field is taken apart only where, since the last await, it is known not to be None (close() resets it at any suspension point)
+    closes_to_none = any(e[0] == "write" and e[1] == SELF and e[2] == conn and e[3] == ("c", None) for p_ in Engine(M).run(close) for e in p_.effects)
+    n_sub = 0
+
+    def _subs(sv, out):
+        if isinstance(sv, tuple):
+            if len(sv) == 3 and sv[0] == "sub" and isinstance(sv[1], tuple) and strip_epoch(sv[1]) == CONN:
+                out.add(sv[1])
+            for x in sv:
+                _subs(x, out)
+        return out
+    reported = False
+    for p in ps if closes_to_none else ():
+        if reported:
+            break
+        used = set()
+        for e in p.effects:
+            _subs(e, used)
+        for g, pol, _ in p.guards:
+            _subs(g, used)
+        for u in sorted(used, key=str):
+            n_sub += 1
+            known = False
+            unsure = False
+            for g, pol, _ in p.guards:
+                if g == u:
+                    known = known or pol
+                elif g[0] == "cmp" and g[1] in ("Is", "IsNot", "Eq", "NotEq") and u in g[2:4] and ("c", None) in g[2:4]:
+                    known = known or (pol == (g[1] in ("IsNot", "NotEq")))
+                elif u in _flat(g):
+                    unsure = True
+            ep = u[3] if len(u) > 3 else 0
+            if any(e[0] == "write" and e[1] == SELF and e[2] == conn and e[3] != ("c", None) and _epoch_of_write(p, e) == ep for e in p.effects):
+                known = True
+            if known:
+                continue
+            if unsure or ep == 0:
+                rep.undecide(f"R4 the connection field is taken apart under a test the path analysis does not classify ({show_sv(u)[:60]})")
+                bad4 += 1
+                continue
+            bad4 += 1
+            rep.violation("R4", f"{MOD}.ConnectionManager.connect_loop", "connection-unpacked-unchecked", "after an await the connection field is taken apart without a test that it is still there: close() resets it to "
+                          "None at any suspension point, so connect_loop() dies with a TypeError instead of returning (and the closing event is never cleared)", file, cl.node.lineno,
+                          witness="on the path [" + "; ".join(("" if pol else "not ") + show_sv(g)[:50] for g, pol, _ in p.guards) + "]")
+            reported = True
+            break
+    if not bad4 and n_sub:
+        rep.ok("R4", f"{n_sub} unpacking(s) of the connection field", "each is dominated by a test of the field with no await in between")
     if not bad4 and n_drop:
         rep.ok("R4", f"{n_drop} dropping path(s)", "the reference is dropped only after the wait on done/closing; when closing is set and a connection is still held its transport is closed")
     if not bad5:
@@ -374,6 +422,26 @@ def check(src, rep):
     from sa.cross import include
     include(rep, src, "C18", {"R1"}, "R5", "the back-off strategy answers after any number of consecutive failures (an exception there ends the connect task before the factory is called, and no further attempt is made)")
     include(rep, src, "C18", {"R4"}, "R5", "the loss bookkeeping the loop runs after every loss is well-formed (an exception there ends connect_loop and with it all reconnecting)")
+
+
+def _flat(sv):
+    out = set()
+    if isinstance(sv, tuple):
+        out.add(sv)
+        for x in sv:
+            out |= _flat(x)
+    return out
+
+
+def _epoch_of_write(p, e):
+    """number of awaits on the path before the write effect e"""
+    n = 0
+    for x in p.effects:
+        if x is e:
+            return n
+        if x[0] == "await":
+            n += 1
+    return -1
 
 
 def _loss_signal(rep, M, src):
